@@ -113,6 +113,27 @@ macro_rules! per_set {
                     match S::PrivateKey::try_from_bytes(b) { Ok(k) => { if k.into_bytes() != b { std::println!("DIFF {} private key with byte {} altered does not serialise back to the same bytes", stringify!($set), pos); $bad += 1; } }
                         Err(_) => { std::println!("DIFF {} private key with byte {} altered rejected", stringify!($set), pos); $bad += 1; } }
                 }
+                // private keys with ONE out-of-range eta field, in every polynomial of s1 and s2 (first / a middle / the last coefficient):
+                // the reference decoder rejects each of them; an accepted one must at least serialise back to the same bytes
+                {
+                    let bl = if p.eta == 2 { 3usize } else { 4usize };
+                    for poly in 0..(p.l + p.k) {
+                        for coeff in [0usize, 101, 255] {
+                            let mut b = skb;
+                            let bit0 = (128 + poly * 32 * bl) * 8 + coeff * bl;
+                            for t in 0..bl { b[(bit0 + t) / 8] |= 1 << ((bit0 + t) % 8); }      // all-ones field: 7 (eta = 2) or 15 (eta = 4), out of range
+                            let want = refimpl::sk_decode(&p, &b).is_some();
+                            match S::PrivateKey::try_from_bytes(b) {
+                                Ok(k) => {
+                                    if !want { std::println!("DIFF {} private key with an out-of-range field in eta-polynomial {} (coefficient {}) ACCEPTED (FIPS 204 skDecode: malformed)", stringify!($set), poly, coeff); $bad += 1; }
+                                    if k.into_bytes() != b { std::println!("DIFF {} accepted private key (bad field in eta-polynomial {}) does not serialise back to the same bytes", stringify!($set), poly); $bad += 1; }
+                                }
+                                Err(_) => { if want { std::println!("DIFF {} in-range private key rejected", stringify!($set)); $bad += 1; } }
+                            }
+                            if $bad > 6 { break; }
+                        }
+                    }
+                }
                 // private keys: extremal in-range coefficient patterns built with the reference encoder
                 for pat in 0..5 {
                     let top = 1i64 << 12;
@@ -140,6 +161,7 @@ fn run_all(what: &str) {
     assert!(bad == 0, "VERIF-PROPERTY-VIOLATED differential({}): {} disagreement(s) with the FIPS 204 reference", what, bad);
 }
 
+const FULL_EVERY: u64 = 1;
 macro_rules! keygen_search {
     ($set:ident, $p:expr, $bad:ident) => {{
         use crate::$set as S;
@@ -150,6 +172,13 @@ macro_rules! keygen_search {
             match r {
                 Err(_) => { std::println!("DIFF {} keygen_from_seed panics, xi={:02x?}", stringify!($set), xi); $bad += 1; }
                 Ok((pkb, skb, d)) => {
+                    // every FULL_EVERY-th seed is compared with the reference directly (a defect shared by generation and derivation
+                    // passes the generated-vs-derived filter); cheap independent filter for all seeds: t1 / t0 recombine to the same t
+                    let full = ctr % FULL_EVERY == 0;
+                    if full {
+                        let (rpk, rsk) = refimpl::keygen_internal(&p, &xi);
+                        if pkb.to_vec() != rpk || skb.to_vec() != rsk { std::println!("DIFF {} keygen differs from FIPS 204 KeyGen_internal, xi={:02x?}", stringify!($set), xi); $bad += 1; }
+                    }
                     if d != pkb {
                         let (rpk, rsk) = refimpl::keygen_internal(&p, &xi);
                         if pkb.to_vec() != rpk || skb.to_vec() != rsk { std::println!("DIFF {} keygen differs from FIPS 204 KeyGen_internal (found by generated-vs-derived filter), xi={:02x?}", stringify!($set), xi); $bad += 1; }
